@@ -1,3 +1,4 @@
+import FFSM2.Gen.Consts
 /-
   FFSM2.Ancestors — port of structure/ancestors_1.inl, ancestors_2.inl (`A_<TFirst, TRest...>::wide*`)
   and the call order inside structure/state_1.inl (`S_::deep*`), C15.
@@ -30,15 +31,23 @@ def wideRev : List Layer → List Layer
 
 def injections (k : Nat) : List Layer := (List.range k).map Layer.inj
 
-/-- `S_::deepX`: the order in which the layers of one state receive method `m`
-    (transcribed per method from state_1.inl). -/
-def deep (k : Nat) : Method → List Layer
-  | .entryGuard | .enter | .reenter | .preUpdate | .update | .preReact | .react =>
-      wideFwd (injections k) ++ [.own]
-  | .postUpdate | .postReact | .exit => .own :: wideRev (injections k)
-  | .exitGuard => wideRev (injections k) ++ [.own]      -- wideExitGuard (reversed) then own
-  | .query => .own :: wideFwd (injections k)            -- own then wideQuery (forward)
-  | .planSucceeded | .planFailed => [.own]              -- wrapPlan*: no wide call
+/-- position of the method in the library's `Method` enumeration order used by the translator -/
+def _root_.FFSM2.Method.code : Method → Nat
+  | .entryGuard => 0 | .enter => 1 | .reenter => 2 | .preUpdate => 3 | .update => 4 | .postUpdate => 5
+  | .preReact => 6 | .react => 7 | .postReact => 8 | .query => 9 | .exitGuard => 10 | .exit => 11
+  | .planSucceeded => 12 | .planFailed => 13
+
+/-- `S_::deepX`: the order in which the layers of one state receive method `m`.  Both tables are
+    **translated from the source on every run** (`Gen.ownFirstCodes`: the methods whose `S_::deepX` calls
+    the state's own callback before `Head::wideX`; `Gen.restFirstCodes`: the methods whose
+    `A_<First, Rest...>::wideX` calls `Rest::wideX` before `First::X`, i.e. runs the injections in reverse);
+    `wrapPlanSucceeded` / `wrapPlanFailed` make no wide call. -/
+def deep (k : Nat) (m : Method) : List Layer :=
+  match m with
+  | .planSucceeded | .planFailed => [.own]
+  | _ =>
+    let w := if Gen.restFirstCodes.contains m.code then wideRev (injections k) else wideFwd (injections k)
+    if Gen.ownFirstCodes.contains m.code then .own :: w else w ++ [.own]
 
 end Ancestors
 end FFSM2
